@@ -479,7 +479,8 @@ def check_C18(ctx):
         faults = [c for c in cases if c["kind"] == "fault"]
         step = max(1, len(faults) // 700)
         # (the handful of cycle-closing reference faults is always kept)
-        cases = faults[::step] + [c for c in faults if any(o.get("op") == "flip" and o.get("ch") == "0" for o in c["ops"])]
+        refs = set(json.load(open(bpath))["refs"])
+        cases = faults[::step] + [c for c in faults if any(o.get("op") == "flip" and o.get("ch") == "0" and o.get("at") in refs for o in c["ops"])]
         ctx.exhaustive = False
     c18_stage(ctx, "bundled-single", _dedup_faults(cases, fb))
     if not q:
